@@ -88,7 +88,7 @@ CHECKS.update({
 })
 
 CHECKS.update({
-    "C21": ("6/C21", "Every sequence (length <=2(3) over all 25 operations; <=4(5) inside the tick family incl. a paged tick stream left open across appends; <=3(4) over state-store x other-family operations) of handler / event / tick / state-store operations executed on a SqliteWorkflowStore with single_connection=True and on one with per-call connections (two real DB files); results and raised exceptions compared after every step.",
+    "C21": ("6/C21", "Every sequence (length <=2(3) over all 26 operations, one of which ('reopen') ends the process without a shutdown call and reads everything back through a new store on the same file; <=4(5) inside the tick family incl. a paged tick stream left open across appends; <=3(4) over state-store x other-family operations) of handler / event / tick / state-store operations executed on a SqliteWorkflowStore with single_connection=True and on one with per-call connections (two real DB files); results and raised exceptions compared after every step.",
             "Differential oracle: the per-call store is the reference the property names. _TICK_PAGE_SIZE set to 2 by the harness. Fix cbedf65 repaired the closed shared connection this check found.", ENUM_TECH),
 })
 
@@ -141,7 +141,7 @@ CHECKS.update({
 
 CRASH_TECH = "exhaustive crash-point enumeration on the real implementation: for every explored schedule the process is stopped after every persisted tick (no further callback runs), a fresh runtime stack is started on the surviving store, and the recovered run is compared with the uninterrupted reference"
 CHECKS.update({
-    "C13": ("6/C13", "6 deterministic workflows (3-step chain, fan-out/fan-in with collect_events, zero-delay retries, catch_error recovery, waiter + external response without / with requirements) on the real server stack (ServerRuntimeDecorator(IdleReleaseDecorator(PersistenceDecorator(BasicRuntime))) + _WorkflowService) over MemoryWorkflowStore (instance survives) and SqliteWorkflowStore (file survives); the process is stopped right after the k-th persisted tick for every k up to the length of the log, a fresh stack resumes through PersistenceDecorator.launch(), and all schedules of both phases within the deviation bound are explored; the resumed handler must end completed with the uninterrupted result and a log that already contains the terminal tick must be finalized without running a step.",
+    "C13": ("6/C13", "8 deterministic workflows (3-step chain, fan-out/fan-in with collect_events, zero-delay retries, catch_error recovery, waiter + external response without / with requirements, a step failure that ends the run, a run the client cancels at any point) on the real server stack (ServerRuntimeDecorator(IdleReleaseDecorator(PersistenceDecorator(BasicRuntime))) + _WorkflowService) over MemoryWorkflowStore (instance survives) and SqliteWorkflowStore (file survives); the process is stopped right after the k-th persisted tick for every k up to the length of the log, a fresh stack resumes through PersistenceDecorator.launch(), and all schedules of both phases within the deviation bound are explored; the resumed handler must end completed with the uninterrupted result and a log that already contains the terminal tick must be finalized without running a step.",
             "Four genuine root causes are recorded as known findings with root-cause witnesses (step output not yet queued, sent event not yet persisted, spuriously idle-flagged handler skipped at startup, non-matching response replayed against a requirement-less waiter); fixes 31a2af2 and bcfdba2 repaired two further defects this check found. Any violation outside those contexts alarms.", CRASH_TECH),
 })
 
@@ -156,7 +156,7 @@ CHECKS.update({
 })
 
 CHECKS.update({
-    "C26": ("6/C26", "In-process stack: {two sequential waits answered by two independent senders, one wait, a fan-out whose consumers are busy while the run is flagged idle, a delayed retry, a waiter timeout} x idle_timeout relative to the delays x all interleavings of idle-timer firings, releases, sends and step completions on the real server stack: live control loops per run <= 1 at every quiescent point, the run's state inspected at the instant of every release (nothing queued / running / scheduled), loops started <= releases + 1, every sent event in the tick log and reflected in the result. DBOS lifecycle: the real DBOSIdleReleaseDecorator + SqliteRunLifecycleLock with two replicas (separate decorator and lock instances) on one lifecycle DB file, each response delivered through either replica, and a releaser that stops between begin_release and complete_release with the clock jumping beyond CRASH_TIMEOUT_SECONDS.",
+    "C26": ("6/C26", "In-process stack: {two sequential waits answered by two independent senders, one wait, a fan-out whose consumers are busy while the run is flagged idle, a delayed retry, a waiter timeout} x idle_timeout relative to the delays x all interleavings of idle-timer firings, releases, sends and step completions on the real server stack: live control loops per run <= 1 at every quiescent point, the run's state inspected at the instant of every release (nothing queued / running / scheduled), loops started <= releases + 1, every sent event in the tick log and reflected in the result. DBOS lifecycle: the real DBOSIdleReleaseDecorator + SqliteRunLifecycleLock with two replicas (separate decorator and lock instances) on one lifecycle DB file, each response delivered through either replica, and a releaser that stops for good - or is merely paused and continues at any later moment - between begin_release and complete_release, with the clock jumping beyond CRASH_TIMEOUT_SECONDS.",
             "Known findings: the in-process release aborts a busy run when the engine announced idle spuriously (C03's root causes). DBOS half: one shared in-process runtime stands for the DBOS cluster; cross-process interleaving inside one lifecycle operation and Postgres are not modelled; bounded poll loop (6 polls).", ENGINE_TECH.replace("the real control loop", "the real server / idle-release stacks")),
 })
 
